@@ -28,6 +28,7 @@ LEVEL = "exploration"
 TECHNIQUE = ("deterministic simulation: seeded interleaving of will/wont/do/dont requests with per-direction FIFO "
              "delivery between two real Telnet protocols; agreement/exactly-once/message-bound oracle")
 QUICK_RUNS = 80000
+TWIN_P = 0.08   # this share of the runs drives two independent instances of the scenario one after the other (detsim.runner._run_scenario)
 # watchdog only (runs are step-capped): generous because a full GC pass in a freshly forked worker on a loaded 16-way box was seen to stall a run for >20 s wall
 RUN_WALL_LIMIT_S = 120
 BATCH = 400
